@@ -214,6 +214,14 @@ def gen_history(rng, al, maxtx):
                 s.append(("other", rng.randrange(4)))
                 gap(0)
                 fwd(f)
+            elif kk < 0.93:
+                # seen ONCE, then a frame of the OTHER length with the same value (01 20 / 00 01 20):
+                # not a repeat, and the second frame is a transaction of its own
+                gap()
+                fwd(lookalike(f))
+                if rng.random() < 0.4:
+                    gap()
+                    fwd(f)
         elif k < 0.68:      # ENABLE DEVICE TYPE + application extended command
             c = rng.choice(al.ext)
             n = c.devicetype if rng.random() < 0.8 else rng.choice([0, 1, 6, 8, 255])
@@ -247,6 +255,13 @@ def gen_history(rng, al, maxtx):
             bus = rng.choice(["s", "g", "v%d" % rng.randrange(256)]) if c.response is not None else "s"
             s.append(("own", c, bus))
     return s
+
+
+def lookalike(f):
+    """the frame of the other length whose `as_integer` is the same (16-bit AA BB <-> 24-bit 00 AA BB;
+    a 24-bit frame that does not start with 00 loses its first byte: same trailing bytes)"""
+    bits, data = f
+    return (24, data) if bits == 16 else (16, data & 0xFFFF)
 
 
 OTHERS = [(0x11, 0x77, (0, 0, 0, 4)), (0x11, 0x77, (0, 0, 0, 2)), (0x11, 0x74, (0, 0, 0, 0)), (0x11, 0x79, (1, 2, 3, 3))]
@@ -637,6 +652,135 @@ def check_serial(ctx, corr, ids, kind, script):
 
 
 # ---------------------------------------------------------------------------
+# DistributorQueue: every join / leave order
+
+def join_leave_sequences(slots, length):
+    """every sequence of exactly `length` steps over `slots` subscriber slots, up to renaming of slots
+    (a slot is first used only after all lower ones).  A slot is absent / subscribed / left:
+      J.i  absent -> subscribed   `driver.new_dali_rx_queue()` (a new child object registers itself)
+      L.i  subscribed -> left     `parent.del_handler(child)`
+      R.i  left -> subscribed     `parent.add_handler(child)` (the same object again)
+      D.i  left -> absent         the last reference to the child is dropped (`__del__` runs)
+    Every shorter sequence is a prefix of one of these, and a frame is observed after every step."""
+    out = []
+
+    def rec(state, seq, used):
+        if len(seq) == length:
+            out.append(tuple(seq))
+            return
+        for i in range(slots):
+            st = state[i]
+            if st == 0:
+                if i > used:
+                    continue
+                opts = "J"
+            elif st == 1:
+                opts = "L"
+            else:
+                opts = "RD"
+            for o in opts:
+                ns = list(state)
+                ns[i] = {"J": 1, "L": 2, "R": 1, "D": 0}[o]
+                rec(ns, seq + [(o, i)], max(used, i + 1) if o == "J" else used)
+    rec([0] * slots, [], 0)
+    return out
+
+
+async def run_join_leave(loop, kind, seq):
+    """one join/leave sequence on a fresh driver; a frame is observed after every step"""
+    ss = await sim.SerialSim(kind).start()
+    d = ss.d
+    parent = ss.p.queue_rx_dali
+    slot_obj = {}          # slot -> (object number, queue)
+    objs = {}              # object number -> queue, while the harness holds it
+    got = {}               # object number -> frames received, for dropped objects
+    evlog, history, live_after = [], [], []
+    nobj = 0
+
+    def drain(q):
+        out = []
+        while not q.empty():
+            c = q.get_nowait()
+            out.append((len(c.frame), c.frame.as_integer))
+        return out
+    frames = []
+    for k, (op, i) in enumerate(seq):
+        if op == "J":
+            q = d.new_dali_rx_queue()
+            slot_obj[i] = (nobj, q)
+            objs[nobj] = q
+            evlog.append("S.%d" % nobj)
+            history.append("q%d = new_dali_rx_queue()" % nobj)
+            nobj += 1
+        elif op == "L":
+            n, q = slot_obj[i]
+            parent.del_handler(q)
+            evlog.append("U.%d" % n)
+            history.append("del_handler(q%d)" % n)
+        elif op == "R":
+            n, q = slot_obj[i]
+            parent.add_handler(q)
+            evlog.append("S.%d" % n)
+            history.append("add_handler(q%d)" % n)
+        else:
+            n, q = slot_obj.pop(i)
+            got[n] = drain(objs.pop(n))
+            history.append("q%d dropped" % n)
+            del q
+        # who the parent will deliver to, in its own order (model vs code)
+        byid = {id(q): n for n, q in objs.items()}
+        live_after.append([byid.get(id(h), -1) for h in parent._handlers.values()])
+        f = (24, 0x00F000 + k) if k % 3 == 2 else (16, 0x0200 + k)
+        data = list(f[1].to_bytes(f[0] // 8, "big"))
+        ss.feed(sim.luba_rx(data) if kind == "luba" else sim.sci_rx(data))
+        frames.append(f)
+        evlog.append("M.%d" % k)
+        history.append("frame %0*x observed" % (f[0] // 4, f[1]))
+        await sim.settle(1)
+    for n, q in objs.items():
+        got[n] = drain(q)
+    return evlog, history, live_after, frames, got
+
+
+def registry_suite(ctx, corr, ids):
+    """serial.DistributorQueue through the real LUBA / SCI protocol objects: EVERY join / leave / re-join /
+    drop sequence of the given length over 4 subscriber slots (hence every shorter one), a frame observed
+    after every step: every queue holds exactly the frames observed while it was subscribed, in order."""
+    slots, length = (4, 8) if ctx.thorough else (4, 7)
+    seqs = join_leave_sequences(slots, length)
+    for kind in ("luba", "sci"):
+        for seq in seqs:
+            evlog, history, live_after, frames, got = sim.run(run_join_leave, kind, seq)
+            line = " ".join(evlog)
+            real = " ".join("%d=%s" % (n, ",".join(str(frames.index(f)) if f in frames else "?" for f in got[n]))
+                            for n in sorted(got))
+            m = ask("reg " + line)
+            sp = ask("specreg " + line)
+            if m.strip() != ("ok " + real).strip():
+                corr.disagree(kind + "_registry", {"history": history, "events": line}, m, real)
+            # the parent's handler table after every step vs the model's subscriber list
+            k = 0
+            for pos, e in enumerate(evlog):
+                if e.startswith("M."):
+                    want = ask("regsubs " + " ".join(evlog[:pos]))
+                    have = "ok " + ",".join(str(x) for x in live_after[k])
+                    if want.strip() != have.strip():
+                        corr.disagree(kind + "_registry", {"history": history[:2 * k + 1], "events": " ".join(evlog[:pos])},
+                                      want, have)
+                        break
+                    k += 1
+            if sp.strip() != ("ok " + real).strip():
+                corr.violate("serial:%s:fanout" % kind, {"gateway": kind, "history": history, "registry_events": line},
+                             sp, real, "a subscriber queue did not receive exactly the frames observed while it was "
+                             "subscribed (q<n>=<indices of the observed frames it holds>)")
+            corr.count("traces", 1)
+            corr.count(kind + "_join_leave", 1)
+        corr.nontrivial((kind, "join-leave", len(seqs)))
+    corr.exhaustive["DistributorQueue (LUBA, SCI): every join/leave/re-join/drop sequence of length <= %d over %d "
+                    "subscribers, a frame after every step" % (length, slots)] = True
+
+
+# ---------------------------------------------------------------------------
 
 def fixed_histories(al):
     """the property's named shapes, each with the decisive gap on both sides of the time-out"""
@@ -663,6 +807,18 @@ def fixed_histories(al):
             [("fwd",) + q, ("gap", g / 2), ("other", 0), ("gap", g / 2 + 0.001), ("back", 5)],
             [("fwd",) + t, ("gap", g / 2), ("other", 1), ("gap", g / 2 + 0.001), ("fwd",) + t],
         ]
+        # a configuration command seen once, then a frame of ANOTHER LENGTH with the same numeric value
+        # (Reset(Short 0) 01 20 / event 00 01 20, Randomise A7 00 / 00 A7 00, every 16-bit send-twice
+        # command of the catalogue and its 24-bit twin, every 24-bit one and its 16-bit tail), alone,
+        # followed by the real repeat, and the other way round
+        looks = [t, (16, 0xA700)] + [al.fr(c) for c in al.twice16] + [al.fr(c) for c in al.twice24]
+        for f in dedupe(looks):
+            o = lookalike(f)
+            hs += [
+                [("fwd",) + f, ("gap", g), ("fwd",) + o],
+                [("fwd",) + f, ("gap", g), ("fwd",) + o, ("gap", 0.01), ("fwd",) + f],
+                [("fwd",) + o, ("gap", g), ("fwd",) + f, ("gap", 0.01), ("fwd",) + f],
+            ]
     return hs
 
 
@@ -702,6 +858,7 @@ def correspond(ctx, corr):
     for script in cls_scripts:
         check_history_raw(ctx, corr, ids, script, spec_timeout_s)
     serial_suite(ctx, corr, ids, al)
+    registry_suite(ctx, corr, ids)
 
 
 def check_history_raw(ctx, corr, ids, script, timeout_s):
